@@ -104,6 +104,21 @@ PROPS["C12"] = dict(
     note="Trusted: SQLite statement semantics, asyncio single-threadedness between awaits, solvers, pyvc.",
 )
 
+PROPS["C15"] = dict(
+    modules=["contracts.C15_atomic", "contracts.C16_rpc"],
+    decided=["DBSession: BEGIN IMMEDIATE after exclusive access, exactly one of commit / rollback at exit, access always "
+             "given up, statements only on the caller's own transaction, nested use rejected",
+             "every @allow_rpc handler performs its mutations inside one `async with self.db` span that contains no await",
+             "the server's receive loop cancels calls in flight only on the exception path and waits for them otherwise"],
+    undecided=["in-memory state outside the database (to_be_deleted, dir_queue, hash_queue) is not rolled back",
+               "client death at an arbitrary byte offset (covered through the framing contracts of C16 only)"],
+    assumptions=["asyncio.Lock mutual exclusion", "SQLite rollback restores the stored tables"],
+    level="Function contracts on the real DBSession methods (effects: BEGIN, commit, rollback, lock) and a structural "
+          "obligation, generated from the AST of every @allow_rpc handler, that all mutating calls lie in one "
+          "transaction span without awaits.",
+    note="Trusted: asyncio.Lock, SQLite transactions, the name-based classification of mutating callees, solvers, pyvc.",
+)
+
 NOT_BUILT = {}
 
 _loaded = False
